@@ -1,7 +1,7 @@
 """C06 - protocol v5 segments: header layout mirror, sentinel agreement, CRC-before-use, buffer retention."""
 import ast
 
-from ..core import AnalysisError, chain, src, body_walk, decorators
+from ..core import AnalysisError, chain, src, body_walk, decorators, walk_no_nested
 from ..cfg import CFG, enumerate_paths, Flow
 from ..fold import Folder, Unfoldable
 from ..absint import Interp, Sym, TriVal, text_of
@@ -323,8 +323,59 @@ def check(chk):
     s = src(pib)
     chk.judge('self._process_segment_buffer()' in s and 'not self._io_buffer.has_consumed_segment' in s and 'cql_frame_buffer.write(segment.payload)' in src(psb),
               'C06.buffer', pib, 'segments feed the cql frame buffer; no segment consumed -> wait for more bytes', 'segment/frame buffer hand-over changed')
+    # a failure (CRC mismatch, decode error, protocol error) is swallowed by defunct_on_error: the loop itself must stop delivering
+    chk.rule('C06.stop', 'process_io_buffer: between a step that can fail the connection (_process_segment_buffer, process_msg) and the next delivery '
+                         '(_read_frame_header / process_msg) every path tests self.is_defunct and leaves on the defunct arm')
+    _stop_rule(chk, pib)
     chk.require('C06.layout', 8)
     chk.require('C06.crc', 8)
+
+
+def _stop_rule(chk, pib):
+    from ..cfg import CFG
+    g = CFG(pib)
+
+    def calls(n, names):
+        a = n.ast
+        if a is None or n.kind not in ('stmt', 'test', 'return'):
+            return False
+        root = a
+        return any(isinstance(c, ast.Call) and src(c.func) in names for c in (walk_no_nested(root) if isinstance(root, ast.stmt) else ast.walk(root)))
+    failing = [n for n in g.stmt_nodes() if calls(n, ('self._process_segment_buffer', 'self.process_msg'))]
+    delivering = [n for n in g.stmt_nodes() if calls(n, ('self._read_frame_header', 'self.process_msg'))]
+    if len(failing) < 2 or len(delivering) < 2:
+        raise AnalysisError('process_io_buffer: failing / delivering steps not recognised (%d/%d)' % (len(failing), len(delivering)))
+
+    def barrier(n):
+        return n.kind == 'test' and src(n.ast) in ('self.is_defunct', 'not self.is_defunct')
+
+    def defunct_arm(n):
+        pos = src(n.ast) == 'self.is_defunct'
+        return [x for x, lab in n.succ if lab and lab[0] == ('T' if pos else 'F')]
+
+    def search(starts):
+        seen, work, hit = set(), list(starts), []
+        while work:
+            n = work.pop()
+            if n.id in seen:
+                continue
+            seen.add(n.id)
+            if n in delivering:
+                hit.append(n)
+                continue
+            if barrier(n):
+                continue
+            work.extend(x for x, _l in n.succ)
+        return hit
+    for f in failing:
+        hit = search([x for x, lab in f.succ if not (lab and lab[0] == 'exc')])
+        chk.judge(not hit, 'C06.stop', f.ast, 'after %s nothing is delivered before self.is_defunct is tested' % src(f.ast).strip()[:50],
+                  'after this step failed the connection (the exception is swallowed by defunct_on_error) the loop goes on to %s: a segment whose CRC check failed is followed by '
+                  'frames carved from the rest of the buffer, delivered to process_msg although the connection is defunct' % sorted(set(src(h.ast).strip()[:40] for h in hit)))
+    bars = [n for n in g.stmt_nodes() if barrier(n)]
+    for b in bars:
+        hit = search(defunct_arm(b))
+        chk.judge(not hit, 'C06.stop', b.ast, 'the defunct arm of the test leaves the loop', 'the defunct arm still reaches a delivery')
 
 
 def _sum_terms(e):
